@@ -504,7 +504,7 @@ func (c *Cluster) findEvent(key string, ms []*Msg, extra []Event) (Event, bool) 
 		// the key carries the whole message: "<from>><to>#<link>.<copy> <hex>"
 		var m Msg
 		var hx string
-		if _, err := fmt.Sscanf(rest, "%d>%d#%d.%d %s", &m.From, &m.To, &m.Link, &m.Copy, &hx); err == nil {
+		if _, err := fmt.Sscanf(rest, "%d>%d#|%d.%d %s", &m.From, &m.To, &m.Link, &m.Copy, &hx); err == nil {
 			if b, err := hex.DecodeString(hx); err == nil && c.Net.ReaderWaiting(m.To) {
 				m.Bytes, m.Kind = b, KindInject
 				return c.injectEvent(&m), true
